@@ -2,7 +2,7 @@
    Only pinned statements, `exact`, Examples by vm_compute, and Print Assumptions. *)
 From Coq Require Import String List NArith ZArith PArith Bool FMapPositive.
 From Sylt Require Import Syntax.Resolved Types.TyGraph Types.Tc Types.Ctx Types.TcInv Types.Reject Types.Mismatch
-  Types.CopyInst Types.Calls Types.CallsDecl Types.BlobFields.
+  Types.CopyInst Types.Calls Types.CallsDecl Types.BlobFields Types.FieldAssign.
 Import ListNotations.
 Local Open Scope string_scope.
 
@@ -174,6 +174,24 @@ Theorem C03_blob_field_type : forall name v sp tvars bfields k b pre lit post se
        SDefinition dname dvar dkind dty (plug_e e (SStatementExpression e sp0) C) dsp :: post')) <> Ok tt.
 Proof. exact BlobFields.C03_blob_field_type_rejected. Qed.
 
+(* After `B :: blob { .., k: t, .. }` (leaf type t) and a later top-level `b := B { .. }` / `b :: B { .. }` (any
+   initialisers the checker accepts), an assignment `b.k = lit` with a literal of another type, at any statement
+   position (is_shole_e C: the hole of the context is a statement) inside the value of a later top-level definition:
+   the type checker does not return Ok.  Two declarations are threaded: the first establishes the field type of B
+   (blob_sig), the second, under it, the field type of the class of b (var_field). *)
+Theorem C03_field_assign : forall name v sp tvars bfields k b bname bv bkind bdty fields self isp bdsp r1 asp lit asgsp ta,
+  rigid_base b = true -> In k (map fst bfields) ->
+  (forall ksp t, In (k, (ksp, t)) bfields -> exists tsp, t = TResolved b tsp) ->
+  lit_type lit = Some ta -> rigid ta = true -> same_shape ta (base_head b) = false ->
+  let stm := SAssignment Nop (EBlobAccess (ERead bv r1) k asp) lit asgsp in
+  forall e pre mid1 mid2 post dname dvar dkind dty (C : ectx) dsp fuel vars,
+    is_shole_e C = true ->
+    typecheck fuel (mkResolved vars
+      (pre ++ SBlob name v sp tvars bfields false :: mid1 ++
+       SDefinition bname bv bkind bdty (EBlob v fields self isp) bdsp :: mid2 ++
+       SDefinition dname dvar dkind dty (plug_e e stm C) dsp :: post)) <> Ok tt.
+Proof. exact FieldAssign.C03_field_assign_rejected. Qed.
+
 (* two types with components of different leaf types at the same position do not unify *)
 Theorem C03_component_conflict : forall g sp a b s ha hb x ca cb ta tb,
   wf s -> head s a = Some ha -> head s b = Some hb -> kid ha x = Some ca -> kid hb x = Some cb ->
@@ -321,7 +339,24 @@ Example C03_example_blob_field_rejects :
   = Err (mkErr KMismatch (spl 3)) [].
 Proof. vm_compute. reflexivity. Qed.
 
+(* B :: blob { x: int } ; b := B { x: 1 } ; start :: fn do b.x = "a" end *)
+Definition progba (body : list stmt) : resolved :=
+  mkResolved [mkVar 0 "start" sp0 true Const; mkVar 1 "B" (spl 1) true Const; mkVar 2 "self" (spl 2) false Const;
+              mkVar 3 "b" (spl 2) true Mutable]
+             [SBlob "B" 1 (spl 1) [] [("x", (spl 1, TResolved BInt (spl 1)))] false;
+              SDefinition "b" 3 Mutable (TImplied (spl 2)) (EBlob 1 [("x", EInt 1 (spl 2))] 2 (spl 2)) (spl 2);
+              SDefinition "start" 0 Const (TImplied sp0)
+                          (EFunction "lambda" [] (TResolved BVoid sp0) body false sp0) sp0].
+Example C03_example_field_assign_ok :
+  typecheck 60 (progba [SAssignment Nop (EBlobAccess (ERead 3 (spl 3)) "x" (spl 3)) (EInt 2 (spl 3)) (spl 3)]) = Ok tt.
+Proof. vm_compute. reflexivity. Qed.
+Example C03_example_field_assign_rejects :
+  typecheck 60 (progba [SAssignment Nop (EBlobAccess (ERead 3 (spl 3)) "x" (spl 3)) (EStr "a" (spl 3)) (spl 3)])
+  = Err (mkErr KMismatch (spl 3)) [].
+Proof. vm_compute. reflexivity. Qed.
+
 Print Assumptions C03_placement.
+Print Assumptions C03_field_assign.
 Print Assumptions C03_blob_field_type.
 Print Assumptions C03_component_conflict.
 Print Assumptions C03_component_keeps_leaf_type.
